@@ -47,6 +47,136 @@ CHECKS = {
         "Trusted: numpy complex arithmetic as the definition. Overlapping-view out= buffers are not demanded to be rejected.",
         "DESIGN.md 3 C15",
     ),
+    "C03": (
+        "runtime value monitor vs torch-autograd oracle of the reference NLL (named parameters, library's own parameter order) + metamorphic batch monitors",
+        "Calls gradient / positive_phase_gradients / compute_exact_gradients / compute_exact_grads of the real classes (batched and 1-D "
+        "forms) on generated models, datasets and basis assignments - all 3^n strings for n<=4 enumerated as single-basis batches for "
+        "complex and mixed states - and compares every component with autograd through an independent Born-rule objective, plus "
+        "permutation / split / entry-point-agreement monitors. Ill-conditioned cases (kappa > 1e5) are logged, not verdict-bearing.",
+        "Trusted: torch autograd complex128. Mixed states: gradient of -log(p+1e-8) or -log p accepted. Softplus budget 3e-9/unit.",
+        "DESIGN.md 3 C03",
+    ),
+    "C05": (
+        "exact-kernel monitor from the public conditionals + ATen Bernoulli tap with chain automaton + protected-storage write sanitizer + Hoeffding-bounded empirical law test",
+        "Three monitors on the real sampler: (1) every public conditional vs the conditional obtained from the enumerated joint, kernel "
+        "assembly, invariance and detailed balance w.r.t. the reported distribution; (2) every aten::bernoulli call made by "
+        "sample()/gibbs_steps is tapped and a chain automaton demands that its probabilities are the reference conditionals of the "
+        "current chain state, exactly k steps, overwrite semantics by storage identity; (3) empirical k-step law vs T_ref^k.",
+        "Trusted: aten::bernoulli draws independent Bernoulli(p) from the seeded generator; statistical monitor false-alarm <= 1e-9/run.",
+        "DESIGN.md 3 C05",
+    ),
+    "C06": (
+        "boundary recorders (recording optimizer/scheduler via public arguments, instance wrappers on compute_batch_gradients / gibbs_steps) + autograd oracle per optimizer step",
+        "Every optimizer step of generated fit() runs is recorded (per named parameter: .grad, value before/after, lr) together with the "
+        "batch arguments and the Gibbs chain end state; the handed gradient is compared with autograd of the contrastive-divergence "
+        "objective at the parameters of THAT step, the SGD update to 4 ulp, one step per batch, scheduler once per epoch.",
+        "Trusted: torch autograd, torch.optim.SGD arithmetic.",
+        "DESIGN.md 3 C06",
+    ),
+    "C07": (
+        "boundary recorder on per-batch arguments + exactly-once / multiset conservation checker over unambiguous histories + write sanitizer on caller data",
+        "The (positive batch, negative batch, bases batch) triple of every batch of generated fit() runs is recorded and checked for "
+        "exactly-once coverage of (row, own basis) pairs per epoch with pairwise-distinct rows, batch counts/sizes, negative batches "
+        "drawn from (reference-basis) data rows; caller's data/bases protected by the ATen write sanitizer and content digests.",
+        "Trusted: a row identifies its input row when rows are pairwise distinct.",
+        "DESIGN.md 3 C07",
+    ),
+    "C08": (
+        "runtime value monitor: exact basis-weighted average of Observable.apply vs Tr(rho_ref O) with dense operators; write sanitizer on samples",
+        "All built-in observables (SigmaX/Y/Z, absolute variants, NeighbourInteraction for every c and both boundary conditions) are "
+        "applied to the full basis of generated positive / complex / mixed states (n<=5) and the exactly weighted average is compared "
+        "with the trace formula on the independent reference state; samples and parameters are storage-protected during apply.",
+        "Trusted: operator conventions fixed by the documentation (Z=diag(-1,+1), per-site averages).",
+        "DESIGN.md 3 C08",
+    ),
+    "C09": (
+        "runtime value monitor: SWAP.apply on every ordered pair x every region vs Tr(rho_A^2) by partial trace of the reference state; pairing-rule monitor; write sanitizer",
+        "For generated states (n<=4) and every region A (all formats) the swap estimator is evaluated on every ordered pair of basis states "
+        "and its exactly weighted average compared with the purity of the reduced reference state; larger batches must equal the "
+        "two-row values of cyclic neighbours; the batch is storage-protected.",
+        "Trusted: reference partial trace.",
+        "DESIGN.md 3 C09",
+    ),
+    "C10": (
+        "runtime value-and-type monitor on every code path of fidelity / KL / NLL vs dense reference (overlap, Uhlmann via eigh, Born KL, mean log-probability)",
+        "fidelity, KL and NLL of the real module are called on every path (pure/mixed, bases None/list/dict, sample_bases, space given or "
+        "not, deprecated kwargs) for generated models and targets (generic, real, sparse, full-rank, rank-1, rank-deficient); value, "
+        "range, self-consistency (1 / 0 against own state in every basis incl. Y), global-phase invariance and plain-number type are checked.",
+        "Trusted: numpy eigh. Mixed fidelity tolerance 1e-6 absolute.",
+        "DESIGN.md 3 C10",
+    ),
+    "C11": (
+        "history monitor vs executable file->snapshot model; torch.load of every written file; metadata identity/digest; write sanitizer during save",
+        "Random histories of randomise/train/save/save-again(same metadata object)/load(into fresh compatible models)/autoload/"
+        "reserved-key/ModelSaver operations over several models and files; after each the live models, files and metadata object are "
+        "compared bitwise with the snapshot taken at save time.",
+        "Trusted: torch.load of the installed torch (weights-only unpickler).",
+        "DESIGN.md 3 C11",
+    ),
+    "C12": (
+        "event-trace recorder (user callbacks) + acceptor of the documented protocol; stop injected at every event position",
+        "For generated configurations (epoch ranges incl. empty, 1-3 batches, 1-3 callbacks + LambdaCallback, Timer on/off, three state "
+        "types) a stop is injected at EVERY event position by first/middle/last callback; the recorded trace must be one of the traces "
+        "the protocol admits, parameters may change only inside a batch window, the flag persists, a stopped state's fit is inert.",
+        "Assumes a stop raised at train/epoch/batch start admits zero or one further batch.",
+        "DESIGN.md 3 C12",
+    ),
+    "C13": (
+        "boundary recorder on state.sample + one-pass numpy oracle over the recorded chain states; merge routine driven on every split of small datasets",
+        "Observable.statistics / System.statistics are run with generated (num_samples, num_chains, burn_in, steps, observables, user "
+        "chains, overwrite); every sample() call is recorded (k, start identity, returned chains) and the returned dictionaries are "
+        "compared with one-pass statistics of all drawn samples; _update_statistics is driven on every prefix/suffix split.",
+        "Trusted: numpy mean/var(ddof=1).",
+        "DESIGN.md 3 C13",
+    ),
+    "C14": (
+        "digest comparison of identical histories across fresh processes with perturbed foreign RNG/hash state + RNG-source audit + protected-storage write sanitizer around read-only operations",
+        "Generated histories over the public API are executed in three fresh child processes (same seed twice with different "
+        "PYTHONHASHSEED/numpy/random state and interleaved foreign draws; a different seed once) and in-process under an audit that "
+        "attributes numpy/random draws to library frames and a write sanitizer protecting every parameter during read-only operations.",
+        "Bit-reproducibility established for this machine's torch build, one intra-op thread.",
+        "DESIGN.md 3 C14",
+    ),
+    "C16": (
+        "runtime value monitor: composite apply / statistics_from_samples vs an interpreter of the same random expression tree over leaf values; rejection monitors",
+        "Random expression trees (depth <= 6, all operator forms, scalar classes incl. numpy.float64 and bool) are built with the real "
+        "operator overloads and evaluated on random batches; an independent interpreter over the leaves' values is the oracle; "
+        "non-linear / non-numeric combinations must raise when built.",
+        "Mathematical equality within 1e-12 sum|terms|.",
+        "DESIGN.md 3 C16",
+    ),
+    "C17": (
+        "independent recorder callback + wrappers on metric functions / system.statistics / logger function vs evaluator accessors, CSV logs and saved files",
+        "A fit with two MetricEvaluators, an ObservableEvaluator, a ModelSaver and a Logger of random periods (plus stop injection, second "
+        "run, clear_history, four metadata modes) is recorded independently; schedule, len/epochs/names/arrays/get_value/last, "
+        "ObservableStatistics, CSV rows and every saved file are compared with the record.",
+        "The recorder is first in the list so the epoch of later calls is known.",
+        "DESIGN.md 3 C17",
+    ),
+    "C18": (
+        "scripted-sequence driver through real evaluators inside a real fit + reference decision procedure in extended reals",
+        "Scripted value (and variance) sequences are delivered through a real MetricEvaluator / ObservableEvaluator inside a real fit; "
+        "the epoch at which training stops, last_epoch and the stop flag are compared with a reference decision procedure over all "
+        "criteria, patience 1..5, period combinations and tolerances (thorough: all sequences over a 4-value alphabet, length <= 6).",
+        "x/0 = inf (no stop); 0/0 unspecified (either outcome accepted). Known finding F9 (ZeroDivisionError on zero reference).",
+        "DESIGN.md 3 C18",
+    ),
+    "C19": (
+        "runtime value monitor vs itertools.product / big-endian expansion / independent file parse",
+        "generate_hilbert_space for sizes 1..20 (all rows for n<=12/16, sampled beyond), subspace_vector, index conversion, positions of "
+        "arrays produced and accepted (psi, rho, fidelity targets, explicit-psi rotations), the size guard, and both loaders plus "
+        "reference-basis extraction on generated files are compared with independent constructions.",
+        "Files parsed with str.split; float32 round trip for targets.",
+        "DESIGN.md 3 C19",
+    ),
+    "C20": (
+        "object-identity / storage-pointer / value monitor after each step of construct-train-reinitialise sequences; aux-bias recorder callback; mutation probes",
+        "Sequences of construct (sizes | module=), train (four optimizers), reinitialise and fit-without-bases are executed; identity and "
+        "storage disjointness of the networks, shapes, zero biases, independent weights, mutation probes both ways, refusal before any "
+        "effect, and the phase auxiliary bias at every batch end are checked.",
+        "Two fresh random weight tensors are never bit-identical.",
+        "DESIGN.md 3 C20",
+    ),
 }
 
 NOT_YET = "check not built yet in this round (work in progress); will be claimed once its monitor exists"
